@@ -353,11 +353,17 @@ class Discharger:
         self.solver.push()
         self.solver.add(b_term(c))
         hint = getattr(self.ctx, "reach_hint", None)
-        if ob.kind == "reach" and hint:
-            for n, val in hint.items():
-                if n in self.ctx.vars:
-                    self.solver.add(self.ctx.vars[n][0] == val)
         r = self.solver.check()
+        if ob.kind == "reach" and hint and r == z3.unknown:
+            # satisfiable-side help only: try a concrete input; an unsat answer of the hinted query proves nothing
+            self.solver.push()
+            for n, val in hint.items():
+                if n in self.ctx.vars and is_term_(self.ctx.vars[n][0]) and not z3.is_bool(self.ctx.vars[n][0]):
+                    self.solver.add(self.ctx.vars[n][0] == val)
+            r2 = self.solver.check()
+            self.solver.pop()
+            if r2 == z3.sat:
+                r = r2
         if r == z3.sat:
             ob.status = "sat"
             try:
